@@ -289,6 +289,13 @@ func validateChunk(c *Check, base TLCOpts, schemaRaw []byte, scs []*Scenario, li
 		c.AddTraces(int64(idx))
 		// everything before idx was accepted; continue with what follows
 		remaining = remaining[idx+1:]
+		if len(rej) >= 12 && len(remaining) > 0 {
+			// a dozen rejections among 160 traces: the tree is broken beyond doubt; each further
+			// rejection costs a TLC run. What is left unexamined is counted, not claimed.
+			c.Inc("traces_not_examined_after_12_rejections_in_a_chunk", int64(len(remaining)))
+			fmt.Fprintf(os.Stderr, "  [tlc] %s: 12 rejections in this chunk, %d traces left unexamined\n", module, len(remaining))
+			break
+		}
 	}
 	return rej, nil
 }
